@@ -1633,6 +1633,53 @@ def run(ctx, anchors=None):
                      "%s opens %s and %s: when the path cannot be opened (read-only directory, missing file) the null stream is handed to the C library - segmentation fault" % (f.name, astq.estr(cn["args"][0])[:40] if cn.get("args") else "?", why22))
     ctx.floor("R15.22", n22, 2, "fopen call sites in btcdeb-authored code")
 
+    # ---- R15.23 memcpy / memmove / memcmp / memset take pointers that are never null, even for a length of zero; data() of an empty
+    # std::vector may be null. Where the length is not a positive constant and the vector is a local or a member of the object
+    # (its emptiness is this function's business), the call sits under a test of the vector's size / emptiness or of the length.
+    # Vectors reached through a parameter are the callers' business and are listed, not judged.
+    ctx.rule("R15.23", "data() of a possibly empty std::vector is not handed to memcpy / memmove / memcmp / memset with a length that may be zero")
+    n23 = 0
+    callers23 = []
+    for f in sorted(fb.funcs.values(), key=lambda f_: f_.id):
+        if f.body is None or not auth(f) or (f.file, f.line, "R15.23") in done21:
+            continue
+        memcalls = [n for n in f.nodes() if n["k"] == "call" and n.get("n") in ("memcpy", "memmove", "memcmp", "memset") and n.get("args")]
+        if not memcalls:
+            continue
+        done21.add((f.file, f.line, "R15.23"))
+        for cn in memcalls:
+            ln_ = cn["args"][-1]
+            cv = astq.const_value(ln_)
+            ptrs = cn["args"][:1] if cn["n"] == "memset" else cn["args"][:2]
+            for a in ptrs:
+                a0 = a
+                while a0 is not None and a0.get("k") in ("cast", "paren"):
+                    a0 = a0["e"]
+                if not (a0 is not None and a0.get("k") == "mcall" and a0.get("n") == "data" and a0.get("objct") == "std::vector" and a0.get("obj") is not None):
+                    continue
+                n23 += 1
+                ctx.site()
+                key = "non-null-pointer:%s@%s" % (astq.estr(a0)[:30], f.name)
+                if cv is not None and cv > 0:
+                    ctx.ok("R15.23", key, f.loc(cn), "the length is the positive constant %s (that the vector holds as many bytes is R15.7's business)" % cv)
+                    continue
+                root = a0["obj"]
+                while root is not None and root.get("k") in ("mem", "cast", "paren") and root.get("base" if root["k"] == "mem" else "e") is not None:
+                    root = root["base" if root["k"] == "mem" else "e"]
+                if not (root is not None and (root.get("k") == "this" or (root.get("k") == "ref" and root.get("dk") == "local"))):
+                    callers23.append("%s: %s" % (f.loc(cn), astq.estr(a0)[:40]))
+                    ctx.ok("R15.23", key, f.loc(cn), "the vector is reached through a parameter: listed, its emptiness is the callers' business")
+                    continue
+                otxt = astq.estr(a0["obj"])
+                ltxt = astq.estr(ln_)
+                atoms = S.guard_atoms(f, cn) + [(f.node_by_id(c_), t_) for (c_, t_) in f.cfg().guards_of(cn)]
+                guarded = any(g_ is not None and ((otxt + ".empty()") in astq.estr(g_) or (otxt + ".size()") in astq.estr(g_) or ltxt in astq.estr(g_)) for (g_, _t) in atoms)
+                ctx.inst(guarded, "R15.23", key, f.loc(cn), "the call is under a test of the vector's size or of the length",
+                         "%s hands %s to %s with the length `%s`, which may be zero while the vector is empty (its data() is then null): undefined behaviour "
+                         "(UBSan: null pointer passed as argument, which is declared to never be null)" % (f.name, astq.estr(a0)[:40], cn["n"], ltxt[:40]))
+    ctx.extra["R15.23_left_to_callers"] = callers23
+    ctx.floor("R15.23", n23, 2, "vector data() pointers handed to the mem* functions")
+
     # ---------------------------------------------------------------- R15.9
     ev = fb.fn("Instance::eval", file="instance.cpp")
     opstep = fb.fn("StepScript", file="script/interpreter.cpp")
@@ -1942,6 +1989,8 @@ MUTANTS = [
     dict(name="checker-built-to-assert-on-missing-data", file="instance.cpp", find="txdata, MissingDataBehavior::FAIL);", replace="txdata, MissingDataBehavior::ASSERT_FAIL);", expect=["R15.21:closed-dispatch:GenericTransactionSignatureChecker(mdb)@Instance::setup_environment"]),
     dict(name="history-stream-unchecked", file="kerl/kerl.c", find="    if (fp) {\n      fprintf(fp,", replace="    {\n      fprintf(fp,", expect=["R15.22:stream-opened:history_file@kerl_add_history"]),
     dict(name="urandom-stream-used-when-null", file="value.cpp", find="    if (!f) {\n        fprintf(stderr, \"unable to open /dev/urandom", replace="    if (!f && num > 64) {\n        fprintf(stderr, \"unable to open /dev/urandom", expect=["R15.22:stream-opened:\"/dev/urandom\"@GetRandBytes"]),
+    dict(name="history-line-trimmed-unconditionally", file="kerl/kerl.c", find="      if (len > 0 && buf[len-1] == '\\n') buf[len-1] = 0;", replace="      buf[len-1] = 0;", expect=["R15.4:array=buf@kerl_set_history_file:index=(len - 1)"]),
+    dict(name="string-bytes-copied-with-memcpy", file="value.h", find="            data.assign(str.begin(), str.end());\n", replace="            data.resize(str.length());\n            memcpy(data.data(), str.data(), str.length());\n", expect=["R15.23:non-null-pointer:data.data()@Value::data_value"]),
     dict(name="token-sized-stack-array", file="instance.cpp", find="            if (std::to_string(n) == v) {", replace="            char nbuf[vlen + 1];\n            snprintf(nbuf, vlen + 1, \"%d\", n);\n            if (!strcmp(nbuf, v)) {", expect=["R15.18:vla:nbuf@Instance::eval"]),
     dict(name="hashtype-buffer-uninitialised", file="debugger/interpreter.h", find="    char buf[100] = \" \"; // the names are joined with blanks; the leading one is skipped below", replace="    char buf[100];", expect=["R15.19:buffer-written-before-read:buf@hashtype_str"]),
     dict(name="value-member-without-initialiser", file="value.h", find="    opcodetype opcode = OP_0;", replace="    opcodetype opcode;", expect=["R15.20:members-initialised:Value"]),
